@@ -56,3 +56,15 @@ pub fn aborts(v: &[u8]) -> u8 {
 pub fn clock() -> std::time::SystemTime {
     std::time::SystemTime::now()
 }
+
+// E4 table keyed by an 8-bit value with fewer than 256 slots
+pub fn short_table(ids: &[u8]) -> bool {
+    let mut seen = [false; u8::MAX as usize];
+    for id in ids.iter().map(|i| *i as usize) {
+        match seen.get_mut(id) {
+            Some(used) if !*used => *used = true,
+            _ => return false,
+        }
+    }
+    true
+}
